@@ -25,7 +25,7 @@ def handle3 (op : String) (a obs : List String) : Option Verdict :=
       derOk := alg != "garbage", notBefore := nb, notAfter := na,
       keyIsEc := alg == "p256" || alg == "p384", curveIsP256 := alg == "p256", sha256 := own }
     let hashes : List Bytes :=
-      if hs == "match" then [own] else if hs == "other" || hs.startsWith "near" then [[2]] else if hs == "empty" then []
+      if hs == "match" then [own] else if hs == "other" || hs.startsWith "near" || hs == "inter" then [[2]] else if hs == "empty" then []
       else if hs == "many" then [[2], [3], own, [4]] else [[2], [3], [4]]
     let model := [match Tls.verify hashes now view with
       | .ok () => "ok"
